@@ -189,6 +189,10 @@ class PopenExecutor(concurrent.futures.Executor):
             raise ShutdownError()
 
         with self._lock:
+            # re-check under the lock: shutdown() may have run since the check above
+            if self._shutdown.is_set():
+                raise ShutdownError()
+
             self._futures.append(future)
             future.start()
             return future
